@@ -191,12 +191,14 @@ HDR_DATE = ['Date', 'Transaction Date', 'Posting Date', 'Trans Date', 'date', 'D
 HDR_DESC = ['Description', 'Merchant', 'Payee', 'Memo', 'Name', 'Merchant Name', 'description', 'Charge Description', 'Debit Memo', 'Payee Name', 'Payment Description']
 HDR_AMT = ['Amount', 'Debit', 'Charge', 'Transaction Amount', 'Payment', 'amount', 'AMOUNT (USD)', 'Payment Amount', 'Charge Amount', 'Debit Amount']
 HDR_LOC = ['Location', 'City', 'State', 'City/State', 'Region', 'Merchant State', 'Merchant City']
-HDR_DECOY = ['Reference', 'Card No.', 'Category', 'Balance', 'Type', 'Check #', 'Notes, misc', 'Account "X"', 'Posted', 'Currency', 'Status', 'Foreign Fee']
+HDR_DECOY = ['Reference', 'Card No.', 'Category', 'Balance', 'Type', 'Check #', 'Notes, misc', 'Account "X"', 'Posted', 'Currency', 'Status', 'Foreign Fee',
+             # filler columns whose headers repeat, differ only in letter case / punctuation, are blank or are not identifiers
+             'Balance', 'balance', 'BALANCE', 'Ref', 'REF', 'Ref #', 'Check', '', ' ', '2024', 'class', 'Running-Balance', 'Running Balance']
 
 inspect_st = st.fixed_dictionaries({
     'date': st.sampled_from(HDR_DATE), 'desc': st.sampled_from(HDR_DESC), 'amt': st.sampled_from(HDR_AMT),
     'loc': st.one_of(st.none(), st.sampled_from(HDR_LOC)),
-    'decoys': st.lists(st.sampled_from(HDR_DECOY), max_size=4, unique=True),
+    'decoys': st.lists(st.sampled_from(HDR_DECOY), max_size=5),
     'perm': st.integers(0, 10 ** 6), 'drop': st.sampled_from([None, None, None, 'date', 'desc', 'amt']),
     'rows': st.lists(st.tuples(st.dates(min_value=__import__('datetime').date(2021, 1, 1), max_value=__import__('datetime').date(2026, 12, 31)),
                                st.sampled_from(['NETFLIX.COM', 'UBER *EATS', 'COFFEE, SHOP', 'AMZN "MKTP"', 'x']), st.integers(-99999, 99999).filter(lambda c: c != 0)).map(list),
